@@ -102,6 +102,7 @@ type Interp struct {
 	res     *HarnessResult
 	splitOf map[string][]Term
 	ptrIDs  map[*Value]int
+	guardsOff bool
 }
 
 func (in *Interp) newID() int { in.objID++; return in.objID }
@@ -1423,6 +1424,9 @@ func (in *Interp) builtin(fr *frame, b *ssa.Builtin, c *ssa.CallCommon, args []V
 // ---------- ghost checks on memory ----------
 
 func (in *Interp) onLoad(p *Value) {
+	if in.guardsOff {
+		return
+	}
 	if mu, ok := in.guard[p]; ok {
 		if !in.heldLocks[mu] {
 			in.ghostViolation("lockset", "load of a guarded cell without holding its mutex")
@@ -1431,6 +1435,12 @@ func (in *Interp) onLoad(p *Value) {
 }
 
 func (in *Interp) onStore(p *Value) {
+	if in.guardsOff {
+		if why, ok := in.frozen[p]; ok {
+			in.ghostViolation("frozen", "store into frozen memory: "+why)
+		}
+		return
+	}
 	if mu, ok := in.guard[p]; ok {
 		if !in.heldLocks[mu] {
 			in.ghostViolation("lockset", "store to a guarded cell without holding its mutex")
@@ -1443,14 +1453,14 @@ func (in *Interp) onStore(p *Value) {
 
 func (in *Interp) onMapRead(m *MapObj) {
 	m.ReadCnt++
-	if m.Guard != nil && !in.heldLocks[m.Guard] {
+	if m.Guard != nil && !in.guardsOff && !in.heldLocks[m.Guard] {
 		in.ghostViolation("lockset", "read of a guarded map without holding its mutex")
 	}
 }
 
 func (in *Interp) onMapWrite(m *MapObj) {
 	m.WriteCnt++
-	if m.Guard != nil && !in.heldLocks[m.Guard] {
+	if m.Guard != nil && !in.guardsOff && !in.heldLocks[m.Guard] {
 		in.ghostViolation("lockset", "write to a guarded map without holding its mutex")
 	}
 }
